@@ -1012,3 +1012,365 @@ R.mutant("benign-e1-render-none-check-boolean-local", COMP,
          sub("        d = dict(schema_translate_map)\n        if None in d:\n            if not self._includes_none_schema_translate:\n",
              "        d = dict(schema_translate_map)\n        none_is_key = None in d\n        compiled_with_none = self._includes_none_schema_translate\n"
              "        if none_is_key:\n            if not compiled_with_none:\n"), None)
+
+
+# ---------------------------------------------------------------------- R6 (str2-g): decisions on the TRANSLATED schema
+# Classes whose methods render or look up schema names for schema objects.  Inside them the only readers of an
+# object's own `.schema` attribute are the `schema_for_object` implementations; everything else asks
+# `schema_for_object(obj)` and decides / renders on its answer (IdentifierPreparer.format_table is the model).
+R6_BASES = (f"{COMP}::Compiled", f"{COMP}::IdentifierPreparer", f"{COMP}::TypeCompiler", "sql/ddl.py::InvokeDDLBase")
+XLAT = "schema_for_object"
+QUOTE = "quote_schema"
+_DIAG = ("warn", "warn_limited", "warn_deprecated", "debug", "info", "error", "warning")
+_NEUTRAL_CALLS = ("bool", "isinstance", "len", "getattr", "hasattr", "str", "repr")
+
+
+def _r6_getters(fnode):
+    """function nodes inside `fnode` (itself included) that ARE schema_for_object implementations: named so, or a
+    nested function stored into an attribute of that name"""
+    out = set()
+    if getattr(fnode, "name", None) == XLAT:
+        out.add(fnode)
+    installed = set()
+    for n in ast.walk(fnode):
+        if isinstance(n, ast.Assign) and isinstance(n.value, ast.Name) and any(
+                isinstance(t, ast.Attribute) and t.attr == XLAT for t in n.targets):
+            installed.add(n.value.id)
+    for n in ast.walk(fnode):
+        if isinstance(n, (ast.FunctionDef, ast.AsyncFunctionDef)) and (n.name in installed or n.name == XLAT):
+            out.add(n)
+    return out
+
+
+def _r6_walk(node, skip):
+    """ast.walk that does not enter the function nodes in `skip`"""
+    stack = [node]
+    while stack:
+        n = stack.pop()
+        if n in skip and n is not node:
+            continue
+        yield n
+        stack.extend(ast.iter_child_nodes(n))
+
+
+def _r6_locals(fnode):
+    names = set()
+    for n in ast.walk(fnode):
+        if isinstance(n, ast.arg):
+            names.add(n.arg)
+        elif isinstance(n, ast.Name) and isinstance(n.ctx, ast.Store):
+            names.add(n.id)
+    return names
+
+
+def _r6_root(e):
+    depth = 0
+    while True:
+        if isinstance(e, (ast.Attribute, ast.Subscript, ast.Starred)):
+            e = e.value
+        elif isinstance(e, ast.Call):
+            e = e.func
+        else:
+            break
+        depth += 1
+    return (e.id if isinstance(e, ast.Name) else None), depth
+
+
+def _r6_raw_reads(fnode, skip):
+    """expressions that read the untranslated schema name of an object held in a local: `<obj>.schema`,
+    `getattr(<obj>, "schema"[, d])` (not `self.schema`: the visitor's own attribute; not module paths)"""
+    local = _r6_locals(fnode)
+    out = []
+    for n in _r6_walk(fnode, skip):
+        obj = None
+        if isinstance(n, ast.Attribute) and n.attr == "schema" and isinstance(n.ctx, ast.Load):
+            obj = n.value
+        elif isinstance(n, ast.Call) and isinstance(n.func, ast.Name) and n.func.id == "getattr" and len(n.args) >= 2 \
+                and const_str(n.args[1]) == "schema":
+            obj = n.args[0]
+        if obj is None:
+            continue
+        root, depth = _r6_root(obj)
+        if root is None or root not in local or (root in ("self", "cls") and depth == 0):
+            continue
+        out.append(n)
+    return out
+
+
+def _r6_is_diag(pm, node):
+    st = enclosing_stmt(pm, node)
+    if isinstance(st, (ast.Raise, ast.Assert)):
+        return True
+    cur = pm.get(node)
+    while cur is not None and cur is not st:
+        if isinstance(cur, ast.Call) and (call_name(cur) or "").rsplit(".", 1)[-1] in _DIAG:
+            return True
+        cur = pm.get(cur)
+    return False
+
+
+def _r6_position(pm, node):
+    """How the value of `node` is used inside its statement -> ('test'|'arg'|'text'|'value'|'bound', detail).
+    'test': it only takes part in a truth value (if/while/ternary test, and/or/not/compare, bool());
+    'arg': handed to a call as the schema NAME; 'text': concatenated / formatted; 'value': returned / stored on an object;
+    'bound': assigned to local name(s) (detail = names)."""
+    child, cur = node, pm.get(node)
+    boolish = False
+    while cur is not None and not isinstance(cur, ast.stmt):
+        if isinstance(cur, ast.Compare) or (isinstance(cur, ast.UnaryOp) and isinstance(cur.op, ast.Not)):
+            boolish = True
+        elif isinstance(cur, ast.BoolOp):
+            # `a and b` / `a or b`: the value may still be the name (x.schema or default); keep going
+            pass
+        elif isinstance(cur, ast.IfExp):
+            if child is cur.test:
+                return "test", None
+        elif isinstance(cur, ast.comprehension) and any(child is t for t in cur.ifs):
+            return "test", None
+        elif isinstance(cur, ast.Call):
+            nm = (call_name(cur) or "").rsplit(".", 1)[-1]
+            if child is cur.func:
+                pass
+            elif nm in ("bool",):
+                boolish = True
+            elif nm in _NEUTRAL_CALLS:
+                pass
+            elif not boolish:
+                return "arg", nm or unparse(cur.func)[:30]
+        elif isinstance(cur, (ast.BinOp, ast.JoinedStr, ast.FormattedValue)) and not boolish:
+            return "text", None
+        child, cur = cur, pm.get(cur)
+    st = cur
+    if isinstance(st, (ast.If, ast.While)) and child is st.test:
+        return "test", None
+    if boolish:
+        if isinstance(st, (ast.Assign, ast.AnnAssign)):
+            tg = st.targets if isinstance(st, ast.Assign) else [st.target]
+            return "bound-bool", [t.id for t in tg if isinstance(t, ast.Name)]
+        if isinstance(st, ast.Return):
+            return "returned-bool", None
+        return "test", None
+    if isinstance(st, (ast.Assign, ast.AnnAssign)):
+        tg = st.targets if isinstance(st, ast.Assign) else [st.target]
+        if all(isinstance(t, ast.Name) for t in tg):
+            return "bound", [t.id for t in tg]
+        return "value", None
+    if isinstance(st, ast.Return):
+        return "value", "returned"
+    return "value", None
+
+
+def _r6_render_calls(fnode, skip):
+    return [n for n in _r6_walk(fnode, skip) if isinstance(n, ast.Call) and isinstance(n.func, ast.Attribute)
+            and n.func.attr in (QUOTE, XLAT)]
+
+
+def _r6_enclosing_func(pm, node, top):
+    cur = pm.get(node)
+    while cur is not None and cur is not top:
+        if isinstance(cur, (ast.FunctionDef, ast.AsyncFunctionDef, ast.Lambda)):
+            return cur
+        cur = pm.get(cur)
+    return top
+
+
+def _r6_guards(ctx, f, pm, call):
+    """every branch outcome under which `call` runs: dominating CFG outcomes of its statement (early returns, nested
+    and inverted ifs alike) + ternaries / and-or operands / comprehension filters inside the statement"""
+    from ._helpers_rob_e1 import cfg_guards, comp_guards
+    owner = _r6_enclosing_func(pm, call, f.node)
+    st = enclosing_stmt(pm, call)
+    out = []
+    if owner is f.node:
+        out += cfg_guards(ctx.cfg(f), st)
+    else:
+        out += lexical_guards(pm, st, stop=owner)
+    out += comp_guards(pm, call)
+    return out
+
+
+@R.rule("C16-R6", floor=21, template="T-SANITISER/T-SIBLING",
+        desc="in compiler / preparer / type-compiler / DDL-visitor classes every decision whether to schema-qualify a name "
+             "(a branch outcome under which quote_schema() / schema_for_object() runs) and every schema name handed on or "
+             "rendered is a function of `schema_for_object(obj)`, the TRANSLATED schema -- never of the object's raw "
+             "`.schema` attribute, which is None for a schema-less object although a map with the None key translates it "
+             "(sibling model: IdentifierPreparer.format_table)")
+def r6(ctx):
+    ix = ctx.index
+    fam = {}
+    for b in R6_BASES:
+        c = ix.cls(b)
+        for k in [c] + ix.subclasses(c):
+            if not k.module.relpath.startswith("testing/"):
+                fam[k.key] = k
+    n_render = 0
+    for ckey in sorted(fam):
+        cls = fam[ckey]
+        for name, f in sorted(cls.methods.items()):
+            if f.type_only or getattr(f, "is_overload", False) or not isinstance(f.node, (ast.FunctionDef, ast.AsyncFunctionDef)):
+                continue
+            if "schema" not in ast.dump(f.node):
+                continue
+            getters = _r6_getters(f.node)
+            if f.node in getters:
+                continue
+            renders = _r6_render_calls(f.node, getters)
+            raws = _r6_raw_reads(f.node, getters)
+            if not renders and not raws:
+                continue
+            ctx.functions_analysed.add(f.key)
+            pm = f.module.parents()
+            key = f"{f.key}:schema-decided-on-translated-schema"
+            raws = [r for r in raws if not _r6_is_diag(pm, r)]
+            # taint: locals that carry the raw name / a truth value computed from it
+            name_t, bool_t = {}, {}
+            problems = []
+
+            def use(node, origin, depth=0):
+                kind, detail = _r6_position(pm, node)
+                if kind in ("arg", "text", "value"):
+                    how = {"arg": f"passed to `{detail}(...)`", "text": "formatted into the SQL text",
+                           "value": "returned / stored as the schema name"}[kind]
+                    problems.append((node.lineno, f"`{origin}` (the untranslated schema name) is {how}"))
+                elif kind == "bound" and depth < 4:
+                    for nm in detail:
+                        if nm not in name_t:
+                            name_t[nm] = origin
+                            for u in _r6_walk(f.node, getters):
+                                if isinstance(u, ast.Name) and u.id == nm and isinstance(u.ctx, ast.Load) and not _r6_is_diag(pm, u):
+                                    use(u, origin, depth + 1)
+                elif kind == "bound-bool":
+                    for nm in detail:
+                        bool_t.setdefault(nm, origin)
+
+            for r in raws:
+                use(r, unparse(r))
+            # second-order truth values: `qualify = include_schema and has_schema`
+            changed = True
+            while changed:
+                changed = False
+                for n, v, st in name_stores(f.node, into_nested=True):
+                    if v is not None and n not in bool_t and n not in name_t and any(
+                            isinstance(x, ast.Name) and x.id in bool_t for x in ast.walk(v)):
+                        bool_t[n] = bool_t[next(x.id for x in ast.walk(v) if isinstance(x, ast.Name) and x.id in bool_t)]
+                        changed = True
+
+            raw_ids = {id(r): unparse(r) for r in raws}
+
+            def tainted_in(test):
+                for x in ast.walk(test):
+                    if id(x) in raw_ids:
+                        return raw_ids[id(x)]
+                    if isinstance(x, ast.Name) and isinstance(x.ctx, ast.Load) and (x.id in name_t or x.id in bool_t):
+                        return name_t.get(x.id) or bool_t.get(x.id)
+                return None
+
+            def helper_raw(test):
+                """a call of a method of the class / a function of the module inside the test whose body reads a raw schema"""
+                for c in ast.walk(test):
+                    if not isinstance(c, ast.Call):
+                        continue
+                    tgt = None
+                    if isinstance(c.func, ast.Attribute) and isinstance(c.func.value, ast.Name) and c.func.value.id in ("self", "cls"):
+                        tgt = ix.resolve_method(cls, c.func.attr)
+                    elif isinstance(c.func, ast.Name):
+                        tgt = f.module.functions.get(c.func.id)
+                    if tgt is None or tgt.node is f.node or not isinstance(tgt.node, (ast.FunctionDef, ast.AsyncFunctionDef)):
+                        continue
+                    g2 = _r6_getters(tgt.node)
+                    if tgt.node in g2:
+                        continue
+                    rr = [r for r in _r6_raw_reads(tgt.node, g2) if not _r6_is_diag(tgt.module.parents(), r)]
+                    if rr:
+                        return f"{unparse(rr[0])} in {tgt.qualname}()"
+                return None
+
+            for c in renders:
+                for test, pol in _r6_guards(ctx, f, pm, c):
+                    o = tainted_in(test) or helper_raw(test)
+                    if o:
+                        problems.append((c.lineno,
+                                         f"`{unparse(c)[:60]}` runs only when `{unparse(test)[:70]}` is {pol}: whether the name is "
+                                         f"schema-qualified is decided on `{o}`, the object's RAW schema"))
+            if renders:
+                n_render += 1
+            if problems:
+                problems = sorted(set(problems))
+                ctx.violation(key, "; ".join(p for _, p in problems)
+                              + " -- for a schema-less object under a schema_translate_map with the None key the raw attribute is None "
+                                "while the translated schema is not (and the compiled SQL must not depend on which names the map assigns): "
+                                f"decide and render on `{XLAT}(obj)` as IdentifierPreparer.format_table does",
+                              f"{f.module.path}:{problems[0][0]}")
+            elif renders:
+                ctx.ok(key, f"{len(renders)} {QUOTE}/{XLAT} call(s); no guard or argument derives from a raw `.schema` read")
+            else:
+                ctx.ok(key, f"{len(raws)} raw `.schema` read(s) decide something other than schema qualification "
+                            f"(no {QUOTE}/{XLAT} call is controlled by them, the name is not handed on)", nontrivial=False)
+    ctx.require(n_render > 0, "no schema-rendering method found in the compiler / preparer / DDL-visitor classes")
+
+
+# ---- R6 (str2-g): round-2 seed C16/2 (seeded/C16_4) and relatives
+_IDX_BLOCK = ("        if index.table is not None:\n            effective_schema = self.preparer.schema_for_object(index.table)\n"
+              "        else:\n            effective_schema = None\n"
+              "        if include_schema and effective_schema:\n            schema_name = self.preparer.quote_schema(effective_schema)\n"
+              "        else:\n            schema_name = None\n")
+R.mutant("seed4-index-name-qualified-on-raw-table-schema", COMP,
+         sub(_IDX_BLOCK,
+             "        schema_name = None\n        if include_schema and index.table is not None and index.table.schema:\n"
+             "            schema_name = self.preparer.quote_schema(\n                self.preparer.schema_for_object(index.table)\n            )\n"), "C16-R6")
+R.mutant("r6-index-name-raw-schema-boolean-local", COMP,
+         sub(_IDX_BLOCK,
+             "        has_schema = index.table is not None and bool(index.table.schema)\n        qualify = include_schema and has_schema\n"
+             "        schema_name = None\n        if qualify:\n"
+             "            schema_name = self.preparer.quote_schema(\n                self.preparer.schema_for_object(index.table)\n            )\n"), "C16-R6")
+R.mutant("r6-index-name-raw-schema-early-return", COMP,
+         sub(_IDX_BLOCK,
+             "        if index.table is None or not index.table.schema:\n            return self.preparer.format_index(index)\n"
+             "        effective_schema = self.preparer.schema_for_object(index.table)\n"
+             "        if include_schema and effective_schema:\n            schema_name = self.preparer.quote_schema(effective_schema)\n"
+             "        else:\n            schema_name = None\n"), "C16-R6")
+R.mutant("r6-index-name-raw-schema-through-helper", COMP,
+         chain(sub(_IDX_BLOCK,
+                   "        schema_name = None\n        if include_schema and self._index_has_schema(index):\n"
+                   "            schema_name = self.preparer.quote_schema(\n                self.preparer.schema_for_object(index.table)\n            )\n"),
+               sub("    def _prepared_index_name(\n",
+                   "    def _index_has_schema(self, index):\n        return index.table is not None and index.table.schema is not None\n\n"
+                   "    def _prepared_index_name(\n")), "C16-R6")
+R.mutant("r6-format-table-gates-on-raw-schema", COMP,
+         sub("        effective_schema = self.schema_for_object(table)\n\n        if not self.omit_schema and use_schema and effective_schema:\n            result = self.quote_schema(effective_schema) + \".\" + result\n",
+             "        effective_schema = self.schema_for_object(table)\n\n        if (\n            not self.omit_schema\n            and use_schema\n            and getattr(table, \"schema\", None)\n        ):\n            result = self.quote_schema(effective_schema) + \".\" + result\n"), "C16-R6")
+R.mutant("r6-format-sequence-renders-raw-schema", COMP,
+         sub("        name = self.quote(sequence.name)\n\n        effective_schema = self.schema_for_object(sequence)\n",
+             "        name = self.quote(sequence.name)\n\n        effective_schema = sequence.schema\n"), "C16-R6")
+R.mutant("r6-checkfirst-looks-up-raw-schema", "sql/ddl.py",
+         sub("    def _can_create_index(self, index):\n        effective_schema = self.connection.schema_for_object(index.table)\n",
+             "    def _can_create_index(self, index):\n        effective_schema = index.table.schema\n"), "C16-R6")
+R.mutant("r6-mssql-comment-schema-from-raw-attribute", "dialects/mssql/base.py",
+         sub("        schema = self.preparer.schema_for_object(create.element)\n        schema_name = schema if schema else self.dialect.default_schema_name\n",
+             "        schema = create.element.schema\n        schema_name = schema if schema else self.dialect.default_schema_name\n"), "C16-R6")
+# benign relatives: the decision stays on the translated schema
+R.mutant("benign-r6-index-schema-through-helper", COMP,
+         chain(sub(_IDX_BLOCK,
+                   "        effective_schema = self._index_schema(index)\n"
+                   "        if include_schema and effective_schema:\n            schema_name = self.preparer.quote_schema(effective_schema)\n"
+                   "        else:\n            schema_name = None\n"),
+               sub("    def _prepared_index_name(\n",
+                   "    def _index_schema(self, index):\n        if index.table is None:\n            return None\n"
+                   "        return self.preparer.schema_for_object(index.table)\n\n    def _prepared_index_name(\n")), None)
+R.mutant("benign-r6-index-qualify-boolean-local", COMP,
+         sub(_IDX_BLOCK,
+             "        table = index.table\n        effective_schema = (\n            self.preparer.schema_for_object(table) if table is not None else None\n        )\n"
+             "        qualify = bool(include_schema and effective_schema)\n        schema_name = None\n"
+             "        if qualify:\n            schema_name = self.preparer.quote_schema(effective_schema)\n"), None)
+R.mutant("benign-r6-index-inverted-early-return", COMP,
+         sub(_IDX_BLOCK,
+             "        if index.table is not None:\n            effective_schema = self.preparer.schema_for_object(index.table)\n"
+             "        else:\n            effective_schema = None\n"
+             "        if not include_schema or not effective_schema:\n            return self.preparer.format_index(index)\n"
+             "        schema_name = self.preparer.quote_schema(effective_schema)\n"), None)
+R.mutant("benign-r6-raw-schema-in-error-message", COMP,
+         sub("        if index.name is None:\n            raise exc.CompileError(\n                \"CREATE / DROP INDEX requires that the index have a name\"\n            )\n        if index.table is not None:",
+             "        if index.name is None:\n            raise exc.CompileError(\n                \"CREATE / DROP INDEX requires that the index have a name \"\n                \"(table schema %r)\" % (index.table.schema,)\n            )\n        if index.table is not None:"), None)
+R.mutant("benign-r6-format-table-schema-local-renamed", COMP,
+         sub("        effective_schema = self.schema_for_object(table)\n\n        if not self.omit_schema and use_schema and effective_schema:\n            result = self.quote_schema(effective_schema) + \".\" + result\n",
+             "        translated = self.schema_for_object(table)\n        wants_schema = not self.omit_schema and use_schema\n\n        if wants_schema and translated:\n            result = self.quote_schema(translated) + \".\" + result\n"), None)
